@@ -80,11 +80,18 @@ func c07Specs(c *run.Ctx) []built {
 		spec.Spec{Name: "c07-url", Base: "new", Calls: []C{attrsOn([]string{"href", "title"}, "", "a"), attrsOn([]string{"src", "alt"}, "", "img"), attrsOn([]string{"cite"}, "", "q", "blockquote"),
 			{Op: "AllowURLSchemes", Names: []string{"http", "ftp"}}, opt("AllowRelativeURLs", true)}},
 	)
+	out = append(out,
+		spec.Spec{Name: "c07-two-bare-patterns", Base: "new", Calls: []C{{Op: "AllowNoAttrs", Scope: "matching", OnRe: `^ui-[a-z]+$`}, {Op: "AllowNoAttrs", Scope: "matching", OnRe: reMyX},
+			{Op: "AllowNoAttrs", Scope: "matching", OnRe: `^zz-`}, attrsPat([]string{"id"}, "", reMy)}},
+		spec.Spec{Name: "c07-spaces-patterns", Base: "new", Calls: []C{opt("AddSpaceWhenStrippingTag", true), {Op: "AllowNoAttrs", Scope: "matching", OnRe: reMy}, attrsPat([]string{"id"}, `^[a-z]+$`, reMy),
+			els("b", "span"), attrsGlob([]string{"title"}, "")}},
+		spec.Spec{Name: "c07-spaces-ugc", Base: "ugc", Calls: []C{opt("AddSpaceWhenStrippingTag", true)}},
+	)
 	out = append(out, specsByName("ugc", "cmd-ugc", "cmd-email", "links", "media", "attrs", "pattern", "pattern-bare", "foreign", "bpbr", "skipmod")...)
 	return buildAll(out)
 }
 
-var patternCandidates = []string{"my-x", "my-xy", "my-y", "my-ab"}
+var patternCandidates = []string{"my-x", "my-xy", "my-y", "my-ab", "ui-card", "zz-top"}
 
 func c07Elements(v *spec.View) []string {
 	out := v.AllowedElementNames()
